@@ -1042,7 +1042,11 @@ class MindsDBParser(Parser):
     @_('LPAREN select RPAREN')
     @_('LPAREN union RPAREN')
     def select(self, p):
-        return p[1]
+        query = p[1]
+        if isinstance(query, (Union, Intersect, Except)):
+            # keep the grouping: a UNION (b EXCEPT c) must not be printed as a UNION b EXCEPT c
+            query.parentheses = True
+        return query
 
     # WITH
     @_('ctes select')
